@@ -9,6 +9,7 @@ mod fw_c03;
 mod c18;
 mod c14;
 mod c06;
+mod c04;
 
 fn main() {
     common::install_panic_hook();
@@ -24,6 +25,8 @@ fn main() {
         "pbcodec" | "pbcodec-child" => c18::run(&args),
         "wrappers" => c14::run(&args),
         "sampling" | "f32ops" => c06::run(&args),
+        "sender" => c04::run(&args, false),
+        "sender_async" => c04::run(&args, true),
         s => {
             eprintln!("unknown stream {s}");
             std::process::exit(2);
